@@ -76,59 +76,131 @@ def d1(cx: Cx, ob: Ob) -> None:
                 ob.violate(fn.qualname, fn.where, f"{w} does not forward **kwargs", detail="kwargs")
 
 
-@obligation("C13-D2", "sibling agreement in _prepare: Path and str (non-URL) branches both end in json.load of a handle opened on the argument; anything else is returned unchanged", floor=3)
+WORLDS = {
+    "P": "a pathlib.Path",
+    "S": "a str naming a local file",
+    "R": "a str starting with https:// / http:// / ftp://",
+    "O": "an in-memory object",
+}
+
+
+def _world_eval(t, data, w):
+    """Truth of a guard term of _prepare in world w (None = not recognised)."""
+    o = op(t)
+    if o == "const":
+        return bool(t[1])
+    if o == "not":
+        v = _world_eval(t[1], data, w)
+        return None if v is None else not v
+    if o in ("and", "or"):
+        vals = []
+        for x in t[1]:
+            v = _world_eval(x, data, w)
+            # short-circuit exactly like Python so that `isinstance(data, str) and data.startswith(..)` is safe
+            if o == "and" and v is False:
+                return False
+            if o == "or" and v is True:
+                return True
+            vals.append(v)
+        if any(v is None for v in vals):
+            return None
+        return all(vals) if o == "and" else any(vals)
+    if o == "call" and callee_name(t) == "isinstance" and len(t[2]) == 2 and t[2][0] == data:
+        ty = t[2][1]
+        names = [show(x) for x in (ty[1] if op(ty) == "tuple" else (ty,))]
+        kinds = set()
+        for n in names:
+            if n.endswith("Path") or n.endswith("PurePath"):
+                kinds.add("P")
+            elif n == "str":
+                kinds |= {"S", "R"}
+            else:
+                return None
+        return w in kinds
+    remote = None
+    if o == "call" and callee_name(t) == "any" and t[2] and op(t[2][0]) == "comp":
+        comp = t[2][0]
+        if op(comp[2]) == "call" and callee_name(comp[2]) == "startswith" and comp[2][1][1] == data:
+            remote = comp[3][0][1]
+    if o == "call" and callee_name(t) == "startswith" and op(t[1]) == "attr" and t[1][1] == data and t[2]:
+        remote = t[2][0]
+    if remote is not None:
+        if w in ("P", "O"):
+            return False
+        return w == "R"
+    return None
+
+
+@obligation("C13-D2", "sibling agreement in _prepare (decision table over the kind of argument): a Path and a local str both end in json.load of a handle opened on the argument, a remote str is fetched, anything else is returned unchanged", floor=3)
 def d2(cx: Cx, ob: Ob) -> None:
     fn = cx.fn(f"{API}._prepare", ob.id)
     s = cx.summary(fn, ob.id)
     data = ("param", fn.params[0].name)
-    kinds = {}
-    for t, ctx in s.returns():
-        line = ctx.path.out[2] if ctx.path.out else fn.node.lineno
-        conds = {(show(g.a), g.b) for g in ctx.guards if g.kind == "guard"}
-        is_path = any(op(g.a) == "call" and callee_name(g.a) == "isinstance" and g.a[2][0] == data and "Path" in show(g.a[2][1]) and g.b for g in ctx.guards if g.kind == "guard")
-        is_str = any(op(g.a) == "call" and callee_name(g.a) == "isinstance" and g.a[2][0] == data and show(g.a[2][1]) == "str" and g.b for g in ctx.guards if g.kind == "guard")
-        ob.site(f"{where(fn, line)} {fn.qualname}", f"return {show(t)[:60]} [{'Path' if is_path else 'str' if is_str else 'object'}]")
-        if op(t) == "call" and op(t[1]) == "ext" and t[1][1] in ("json.load", "json.loads"):
-            h = t[2][0] if t[2] else None
-            opened = None
-            if op(h) == "ctx":
-                c = h[2]
-                if op(c) == "call" and op(c[1]) == "attr" and c[1][1] == data and c[1][2] == "open":
-                    opened = ("method", c)
-                elif op(c) == "call" and op(c[1]) == "builtin" and c[1][1] == "open" and c[2][:1] == (data,):
-                    opened = ("builtin", c)
-            if t[1][1] == "json.loads":
-                # json.loads(path.read_text())
-                if any(op(x) == "call" and callee_name(x) in ("read_text", "read") and any(y == data for y in subterms(x)) for x in subterms(t)):
-                    opened = ("read", t)
-            if opened is None:
-                ob.violate(fn.qualname, where(fn, line), f"_prepare parses `{show(h)[:50]}`, not a handle opened on its argument", detail="handle")
-            else:
-                c = opened[1]
-                mode = None
-                if opened[0] in ("method", "builtin"):
-                    args = c[2][1:] if opened[0] == "builtin" else c[2]
-                    mode = args[0] if args else dict(c[3]).get("mode")
-                if mode is not None and not (is_const(mode) and mode[1] in ("r", "rt")):
-                    ob.violate(fn.qualname, where(fn, line), f"_prepare opens the file with mode {show(mode)}", detail="mode")
-            kinds["path" if is_path else "str" if is_str else "other"] = "json"
-        elif op(t) == "call" and op(t[1]) == "func" and t[1][1].endswith("._get_remote_json"):
-            if t[2][:1] != (data,):
-                ob.violate(fn.qualname, where(fn, line), "remote JSON fetched from something other than the argument", detail="remote-arg")
-            if not is_str:
-                ob.violate(fn.qualname, where(fn, line), "remote branch reachable for non-str input", detail="remote-branch")
-        elif t == data:
-            if is_path or is_str:
-                ob.violate(fn.qualname, where(fn, line), f"_prepare returns the {'Path' if is_path else 'str'} argument itself instead of loading it", detail="unloaded:" + ("path" if is_path else "str"))
-            kinds["object"] = "identity"
+    reached: dict[str, list] = {w: [] for w in WORLDS}
+    for o_, ctx in s.outcomes():
+        if o_ is None:
+            t, line = NONE, fn.node.lineno
+        elif o_[0] == "return":
+            t, line = o_[1], o_[2]
         else:
-            ob.violate(fn.qualname, where(fn, line), f"_prepare returns `{show(t)[:60]}`: neither the loaded JSON nor the unchanged object", detail="return-shape")
-    if kinds.get("path") != "json":
-        ob.violate(fn.qualname, fn.where, "_prepare has no branch loading a pathlib.Path with json.load", detail="missing:path")
-    if kinds.get("str") != "json":
-        ob.violate(fn.qualname, fn.where, "_prepare has no branch loading a str file name with json.load", detail="missing:str")
-    if kinds.get("object") != "identity":
-        ob.violate(fn.qualname, fn.where, "_prepare does not return in-memory objects unchanged", detail="missing:object")
+            continue
+        for w in WORLDS:
+            ok = True
+            for g in ctx.guards:
+                if g.kind != "guard":
+                    continue
+                v = _world_eval(g.a, data, w)
+                if v is None:
+                    ob.undecide(f"_prepare: guard `{show(g.a)[:60]}` not recognised")
+                    ok = False
+                    break
+                if v != g.b:
+                    ok = False
+                    break
+            if ok:
+                reached[w].append((t, line))
+
+    def loads_argument(t) -> str | None:
+        """None if ``t`` is json.load(<handle opened for reading on the argument>), else a complaint."""
+        if not (op(t) == "call" and op(t[1]) == "ext" and t[1][1] in ("json.load", "json.loads")):
+            return f"returns `{show(t)[:50]}` instead of the parsed JSON document"
+        h = t[2][0] if t[2] else None
+        if t[1][1] == "json.loads":
+            if any(op(x) == "call" and callee_name(x) in ("read_text", "read") and any(y == data for y in subterms(x)) for x in subterms(t)):
+                return None
+            return "parses something other than the content of the argument"
+        if op(h) != "ctx":
+            return f"parses `{show(h)[:40]}`, not a handle opened on the argument"
+        c = h[2]
+        mode = None
+        if op(c) == "call" and op(c[1]) == "attr" and c[1][1] == data and c[1][2] == "open":
+            mode = c[2][0] if c[2] else dict(c[3]).get("mode")
+        elif op(c) == "call" and op(c[1]) == "builtin" and c[1][1] == "open" and c[2][:1] == (data,):
+            mode = c[2][1] if len(c[2]) > 1 else dict(c[3]).get("mode")
+        else:
+            return f"opens `{show(c)[:40]}`, not the argument"
+        if mode is not None and not (is_const(mode) and mode[1] in ("r", "rt")):
+            return f"opens the file with mode {show(mode)}"
+        return None
+
+    for w, text in WORLDS.items():
+        outs = reached[w]
+        if not outs:
+            if not ob.undecided:
+                ob.violate(fn.qualname, fn.where, f"_prepare has no outcome for {text}", detail=f"missing:{w}")
+            continue
+        for t, line in outs:
+            ob.site(f"{where(fn, line)} {fn.qualname}", f"{text}: {show(t)[:50]}")
+            if w in ("P", "S"):
+                bad = loads_argument(t)
+                if bad:
+                    ob.violate(fn.qualname, where(fn, line), f"given {text}, _prepare {bad}: loading from {'Path' if w == 'P' else 'str'} no longer yields the same converter as loading the object", detail=f"unloaded:{w}")
+            elif w == "R":
+                if not (op(t) == "call" and op(t[1]) == "func" and t[1][1].endswith("._get_remote_json") and t[2][:1] == (data,)):
+                    ob.violate(fn.qualname, where(fn, line), f"given {text}, _prepare returns `{show(t)[:50]}` instead of fetching it", detail="remote")
+            else:
+                if t != data:
+                    ob.violate(fn.qualname, where(fn, line), f"given {text}, _prepare returns `{show(t)[:50]}` instead of the object unchanged", detail="object-changed")
 
 
 def loader_ctor(cx: Cx, ob: Ob, m):
